@@ -8,13 +8,14 @@ j-th logged result for k.
 """
 from __future__ import annotations
 
+from harness import REPO_SRC  # noqa: E402
+
 import os
 import sys
 import traceback
 
 from . import concretize as C
 
-REPO_SRC = "/repo/src"
 if REPO_SRC not in sys.path:
     sys.path.insert(0, REPO_SRC)
 
